@@ -25,6 +25,7 @@ from guppylang_internals.checker.expr_checker import ExprSynthesizer, to_bool
 from guppylang_internals.checker.stmt_checker import StmtChecker
 from guppylang_internals.diagnostic import Error, Note
 from guppylang_internals.error import GuppyError
+from guppylang_internals.nodes import InoutReturnSentinel
 from guppylang_internals.tys.param import Parameter
 from guppylang_internals.tys.ty import InputFlags, Type
 
@@ -307,6 +308,13 @@ def check_rows_match(row1: Row[Variable], row2: Row[Variable], bb: BB) -> None:
             # in error messages:
             ident = "Expression" if v1.name.startswith("%") else f"Variable `{v1.name}`"
             use = bb.containing_cfg.live_before[bb][v1.name].vars.used[v1.name]
+            # The only use of a borrowed argument might be the implicit one when the
+            # function returns, which has no source location. In that case, blame the
+            # later one of the conflicting definitions
+            if isinstance(use, InoutReturnSentinel):
+                later_def = v2.defined_at or v1.defined_at
+                assert later_def is not None
+                use = later_def
             err = BranchTypeError(use, ident)
             # We don't add a location to the type hint for the global variable,
             # since it could lead to cross-file diagnostics (which are not
